@@ -117,8 +117,30 @@ func Time(t time.Time) *time.Time {
 	return &t
 }
 
+// Params joins the parameters of a run into the string that is recorded with
+// its status and parsed again by retry and restart. A value that would not be
+// read back as one parameter (white space or quotes inside, or empty) is
+// written in the quoted form.
 func Params(params []string) string {
-	return strings.Join(params, " ")
+	quoted := make([]string, len(params))
+	for i, p := range params {
+		quoted[i] = quoteParam(p)
+	}
+	return strings.Join(quoted, " ")
+}
+
+const paramSpecialChars = " \t\n\v\f\r\""
+
+func quoteParam(param string) string {
+	name, value := "", param
+	if i := strings.Index(param, "="); i > 0 &&
+		!strings.ContainsAny(param[:i], paramSpecialChars+"`") {
+		name, value = param[:i+1], param[i+1:]
+	}
+	if value != "" && !strings.ContainsAny(value, paramSpecialChars) {
+		return param
+	}
+	return name + `"` + strings.ReplaceAll(value, `"`, `\"`) + `"`
 }
 
 type PID int
